@@ -180,7 +180,13 @@ pub fn acc_reset() {}
 #[cfg(not(kodama_verif))]
 pub fn acc_get() -> u64 { 0 }
 
+pub fn describe_call(kind: &str, wide: bool, algo: u8, method: u8, n: u64, bits: &[u64]) -> String {
+    let b = if bits.len() <= 300 { coq_list(bits) } else { format!("({} entries, hash {:x})", bits.len(), hash64(bits)) };
+    format!("{} {} {} {} n={} bits={}", kind, ALGO_NAMES[algo as usize], METHOD_NAMES[method as usize], if wide { "f64" } else { "f32" }, n, b)
+}
+
 pub fn run_fresh<T: Bits>(algo: u8, method: u8, n: u64, bits: &[u64]) -> Outcome {
+    tick_global(&describe_call("fresh call", T::WIDE, algo, method, n, bits));
     let mut m: Vec<T> = bits.iter().map(|&b| T::from_bits64(b)).collect();
     acc_reset();
     let r = catch(|| call_fresh::<T>(algo, method, &mut m, n as usize));
@@ -237,4 +243,14 @@ pub fn hash64(data: &[u64]) -> u64 {
         }
     }
     h
+}
+
+// ---------------------------------------------------------------- hang watchdog
+use std::sync::Mutex;
+use std::time::Instant;
+pub static PROGRESS: Mutex<Option<(Instant, String)>> = Mutex::new(None);
+/// record what is about to run; the main thread aborts the process when this
+/// goes stale (the implementation hangs)
+pub fn tick_global(what: &str) {
+    if let Ok(mut g) = PROGRESS.lock() { *g = Some((Instant::now(), what.to_string())); }
 }
